@@ -1,3 +1,6 @@
+/-
+  Helper lemmas for C05 (scalar codecs, LEB128, type/endianness tables).
+-/
 import CstructModel.Codec
 import CstructModel.Leb
 import CstructModel.Resolve
@@ -5,4 +8,658 @@ import CstructModel.Gen.Endian
 import CstructModel.Expr
 namespace Cstruct.C05.Lemmas
 open Cstruct
+
+/-! ### Tables -/
+
+def pow2 (n : Nat) : Bool := n ≠ 0 && n &&& (n - 1) = 0
+
+def entryOk (e : Gen.TypeEntry) : Bool :=
+  match e with
+  | .type _ k sz al =>
+    decide (sz = k.size) &&
+      ((decide (al = none) && decide (sz = none)) || (decide (al = some 0) && decide (k = .void)) ||
+        (match al with | some a => pow2 a | none => false))
+  | .alias t => (resolveAux Gen.typeTable 2 t).isOk
+
+theorem entryOk_all : ∀ p ∈ Gen.typeTable, entryOk p.2 = true := by decide +kernel
+
+theorem entryOk_spec (e : Gen.TypeEntry) : entryOk e = true →
+    match e with
+    | .type _ k sz al => sz = k.size ∧ (al = none ∧ sz = none ∨ al = some 0 ∧ k = .void ∨ ∃ a, al = some a ∧ pow2 a = true)
+    | .alias t => (resolveAux Gen.typeTable 2 t).isOk = true := by
+  cases e with
+  | alias t => exact id
+  | type n k sz al =>
+    intro h
+    simp only [entryOk, Bool.and_eq_true, Bool.or_eq_true, decide_eq_true_eq] at h
+    refine ⟨h.1, ?_⟩
+    rcases h.2 with (h | h) | h
+    · exact Or.inl h
+    · exact Or.inr (Or.inl h)
+    · cases al with
+      | none => simp at h
+      | some a => exact Or.inr (Or.inr ⟨a, rfl, h⟩)
+
+theorem type_table_entries : ∀ p ∈ Gen.typeTable, match p.2 with
+      | .type _ k sz al => sz = k.size ∧ (al = none ∧ sz = none ∨ al = some 0 ∧ k = .void ∨ ∃ a, al = some a ∧ pow2 a = true)
+      | .alias t => (resolveAux Gen.typeTable 2 t).isOk = true :=
+  fun p hp => entryOk_spec p.2 (entryOk_all p hp)
+
+def resolvesTo (p : String × Scalar) : Bool :=
+  match resolve Gen.typeTable p.1 with
+  | .ok (_, k, _, _) => decide (k = p.2)
+  | .error _ => false
+
+theorem resolvesTo_spec (p : String × Scalar) (h : resolvesTo p = true) :
+    ∃ n sz al, resolve Gen.typeTable p.1 = .ok (n, p.2, sz, al) := by
+  unfold resolvesTo at h
+  split at h
+  · rename_i n k sz al heq
+    simp only [decide_eq_true_eq] at h
+    subst h
+    exact ⟨n, sz, al, heq⟩
+  · cases h
+
+def expectedNames : List (String × Scalar) :=
+  [("int8", Scalar.pint 1 true), ("uint8", .pint 1 false), ("int16", .pint 2 true),
+        ("uint16", .pint 2 false), ("int32", .pint 4 true), ("uint32", .pint 4 false), ("int64", .pint 8 true),
+        ("uint64", .pint 8 false), ("int24", .aint 3 true), ("uint24", .aint 3 false), ("int48", .aint 6 true),
+        ("uint48", .aint 6 false), ("int128", .aint 16 true), ("uint128", .aint 16 false), ("float16", .pflt 2),
+        ("float", .pflt 4), ("double", .pflt 8), ("char", .char), ("wchar", .wchar), ("uleb128", .leb false),
+        ("ileb128", .leb true), ("void", .void), ("short", .pint 2 true), ("unsigned short", .pint 2 false),
+        ("int", .pint 4 true), ("unsigned int", .pint 4 false), ("long long", .pint 8 true),
+        ("unsigned long long", .pint 8 false), ("BYTE", .pint 1 false), ("WORD", .pint 2 false),
+        ("DWORD", .pint 4 false), ("QWORD", .pint 8 false), ("uint32_t", .pint 4 false), ("int64_t", .pint 8 true),
+        ("wchar_t", .wchar), ("signed char", .pint 1 true), ("unsigned char", .char)]
+
+theorem expected_all : ∀ p ∈ expectedNames, resolvesTo p = true := by decide +kernel
+
+theorem type_table_names (name : String) (k : Scalar) (h : (name, k) ∈ expectedNames) :
+    ∃ n sz al, resolve Gen.typeTable name = .ok (n, k, sz, al) :=
+  resolvesTo_spec (name, k) (expected_all _ h)
+
+theorem endian_tables :
+    Expr.lookup "<" Gen.endiannessMap = some (some .little) ∧ Expr.lookup ">" Gen.endiannessMap = some (some .big) ∧
+    Expr.lookup "!" Gen.endiannessMap = some (some .big) ∧
+    (∀ c ∈ ["<", ">", "!"], Expr.lookup c Gen.wcharEncodingMap = Expr.lookup c Gen.endiannessMap) := by
+  decide +kernel
+
+/-! ### Fixed-width codecs -/
+
+theorem pow8 (n : Nat) : 2 ^ (8 * n) = 256 ^ n := by
+  rw [Nat.pow_mul]
+
+theorem toLE_length (n v : Nat) : (toLE n v).length = n := by
+  induction n generalizing v with
+  | zero => rfl
+  | succ n ih => simp [toLE, ih]
+
+theorem u8_toNat_ofNat_mod (v : Nat) : (UInt8.ofNat (v % 256)).toNat = v % 256 := by
+  simp [UInt8.toNat_ofNat']
+
+theorem fromLE_toLE (n v : Nat) (h : v < 256 ^ n) : fromLE (toLE n v) = v := by
+  induction n generalizing v with
+  | zero => simp at h; simp [toLE, fromLE, h]
+  | succ n ih =>
+    simp only [toLE, fromLE]
+    have h1 : v / 256 < 256 ^ n := by
+      rw [Nat.div_lt_iff_lt_mul (by decide)]; rw [Nat.pow_succ] at h; exact h
+    rw [ih _ h1, u8_toNat_ofNat_mod]; omega
+
+theorem fromLE_lt (bs : Bytes) : fromLE bs < 256 ^ bs.length := by
+  induction bs with
+  | nil => simp [fromLE]
+  | cons b r ih =>
+    simp only [fromLE, List.length_cons, Nat.pow_succ]
+    have := b.toNat_lt
+    omega
+
+theorem toLE_fromLE (bs : Bytes) : toLE bs.length (fromLE bs) = bs := by
+  induction bs with
+  | nil => rfl
+  | cons b r ih =>
+    simp only [fromLE, List.length_cons, toLE]
+    have hb := b.toNat_lt
+    have h1 : (b.toNat + 256 * fromLE r) % 256 = b.toNat := by omega
+    have h2 : (b.toNat + 256 * fromLE r) / 256 = fromLE r := by omega
+    rw [h1, h2, ih]
+    simp
+
+theorem fromLE_concat (bs : Bytes) (m : UInt8) :
+    fromLE (bs ++ [m]) = fromLE bs + 256 ^ bs.length * m.toNat := by
+  induction bs with
+  | nil => simp [fromLE]
+  | cons b r ih =>
+    simp only [List.cons_append, fromLE, ih, List.length_cons, Nat.pow_succ]
+    rw [Nat.mul_add, Nat.add_assoc]
+    congr 2
+    rw [Nat.mul_comm (256 ^ r.length) 256, Nat.mul_assoc]
+
+def tcLE (bs : Bytes) : Int :=
+  match bs.getLast? with
+  | some msb => if msb.toNat ≥ 128 then (fromLE bs : Int) - (2 ^ (8 * bs.length) : Nat) else (fromLE bs : Int)
+  | none => 0
+
+theorem decode_unsigned (bs : Bytes) : decodeInt .little false bs = (fromLE bs : Int) := by
+  simp [decodeInt, decodeNat]
+
+theorem decode_signed (bs : Bytes) : decodeInt .little true bs = tcLE bs := by
+  rcases List.eq_nil_or_concat bs with rfl | ⟨L, m, rfl⟩
+  · simp [decodeInt, decodeNat, tcLE, fromLE]
+  · rw [List.concat_eq_append]
+    have hlast : (L ++ [m]).getLast? = some m := by simp
+    simp only [tcLE, hlast, decodeInt, decodeNat, true_and]
+    have hL := fromLE_lt L
+    have hm := m.toNat_lt
+    have hlen : (L ++ [m]).length = L.length + 1 := by simp
+    rw [fromLE_concat, hlen, pow8, Nat.pow_succ]
+    generalize 256 ^ L.length = P at *
+    generalize fromLE L = x at *
+    by_cases h : m.toNat ≥ 128
+    · have h2 : P * 256 ≤ 2 * (x + P * m.toNat) := by
+        have : P * 128 ≤ P * m.toNat := Nat.mul_le_mul_left _ h
+        omega
+      rw [if_pos h2, if_pos h]
+    · have h2 : ¬ P * 256 ≤ 2 * (x + P * m.toNat) := by
+        have : P * m.toNat ≤ P * 127 := Nat.mul_le_mul_left _ (by omega)
+        omega
+      rw [if_neg h2, if_neg h]
+
+theorem decode_big (s : Bool) (bs : Bytes) : decodeInt .big s bs = decodeInt .little s bs.reverse := by
+  unfold decodeInt decodeNat
+  simp only [List.length_reverse]
+
+theorem decodeNat_lt (e : Endian) (bs : Bytes) : decodeNat e bs < 2 ^ (8 * bs.length) := by
+  rw [pow8]
+  cases e with
+  | little => exact fromLE_lt bs
+  | big => have := fromLE_lt bs.reverse; simpa [decodeNat] using this
+
+/-- the bytes `encodeInt` produces for the residue `u` -/
+def encBytes (e : Endian) (n u : Nat) : Bytes :=
+  match e with | .little => toLE n u | .big => (toLE n u).reverse
+
+theorem encBytes_length (e : Endian) (n u : Nat) : (encBytes e n u).length = n := by
+  cases e <;> simp [encBytes, toLE_length]
+
+theorem decodeNat_encBytes (e : Endian) (n u : Nat) (h : u < 2 ^ (8 * n)) : decodeNat e (encBytes e n u) = u := by
+  rw [pow8] at h
+  cases e <;> simp [encBytes, decodeNat, fromLE_toLE n u h]
+
+theorem encBytes_decodeNat (e : Endian) (bs : Bytes) : encBytes e bs.length (decodeNat e bs) = bs := by
+  cases e with
+  | little => exact toLE_fromLE bs
+  | big =>
+    have := toLE_fromLE bs.reverse
+    simp only [List.length_reverse] at this
+    simp [encBytes, decodeNat, this]
+
+theorem encodeInt_eq (e : Endian) (n : Nat) (s : Bool) (v : Int) (h : fits n s v = true) :
+    encodeInt e n s v = some (encBytes e n (v % ((2 ^ (8 * n) : Nat) : Int)).toNat) := by
+  unfold encodeInt encBytes
+  rw [if_pos h]
+  rfl
+
+theorem emod_neg_range (v N : Int) (h1 : -N ≤ v) (h2 : v < 0) : v % N = v + N := by
+  rw [← Int.add_emod_right, Int.emod_eq_of_lt (by omega) (by omega)]
+
+theorem int_roundtrip (e : Endian) (n : Nat) (s : Bool) (v : Int) (h : fits n s v = true) :
+    ∃ bs, encodeInt e n s v = some bs ∧ bs.length = n ∧ decodeInt e s bs = v := by
+  refine ⟨_, encodeInt_eq e n s v h, encBytes_length _ _ _, ?_⟩
+  have hNpos : 0 < 2 ^ (8 * n) := Nat.two_pow_pos _
+  unfold decodeInt
+  simp only [encBytes_length]
+  unfold fits at h
+  have hdec : ∀ u, u < 2 ^ (8 * n) → decodeNat e (encBytes e n u) = u := decodeNat_encBytes e n
+  generalize 2 ^ (8 * n) = N at *
+  cases s with
+  | false =>
+    simp only [Bool.false_eq_true, if_false, decide_eq_true_eq] at h
+    have hm : v % (N : Int) = v := Int.emod_eq_of_lt h.1 h.2
+    rw [hm, hdec _ (by omega)]
+    simp only [Bool.false_eq_true, false_and, if_false]
+    omega
+  | true =>
+    simp only [if_true, decide_eq_true_eq] at h
+    by_cases hv : 0 ≤ v
+    · have hm : v % (N : Int) = v := Int.emod_eq_of_lt hv (by omega)
+      rw [hm, hdec _ (by omega)]
+      have : ¬ (N ≤ 2 * v.toNat) := by omega
+      simp only [true_and, if_neg this]
+      omega
+    · have hm : v % (N : Int) = v + N := emod_neg_range v N (by omega) (by omega)
+      rw [hm, hdec _ (by omega)]
+      have : (N ≤ 2 * (v + (N : Int)).toNat) := by omega
+      simp only [true_and, if_pos this]
+      omega
+
+
+theorem int_roundtrip_bytes (e : Endian) (s : Bool) (bs : Bytes) :
+    fits bs.length s (decodeInt e s bs) = true ∧ encodeInt e bs.length s (decodeInt e s bs) = some bs := by
+  have hlt := decodeNat_lt e bs
+  have henc := encBytes_decodeNat e bs
+  have key : fits bs.length s (decodeInt e s bs) = true ∧
+      (decodeInt e s bs % ((2 ^ (8 * bs.length) : Nat) : Int)).toNat = decodeNat e bs := by
+    unfold decodeInt fits
+    generalize 2 ^ (8 * bs.length) = N at *
+    generalize decodeNat e bs = u at *
+    cases s with
+    | false =>
+      simp only [Bool.false_eq_true, false_and, if_false, decide_eq_true_eq]
+      have hm : (u : Int) % (N : Int) = u := Int.emod_eq_of_lt (by omega) (by omega)
+      rw [hm]
+      omega
+    | true =>
+      simp only [true_and, if_true, decide_eq_true_eq]
+      by_cases hc : N ≤ 2 * u
+      · rw [if_pos hc]
+        have hm : ((u : Int) - N) % (N : Int) = u := by
+          rw [emod_neg_range _ _ (by omega) (by omega)]; omega
+        rw [hm]
+        omega
+      · rw [if_neg hc]
+        have hm : (u : Int) % (N : Int) = u := Int.emod_eq_of_lt (by omega) (by omega)
+        rw [hm]
+        omega
+  refine ⟨key.1, ?_⟩
+  rw [encodeInt_eq _ _ _ _ key.1, key.2, henc]
+
+theorem int_reject (e : Endian) (n : Nat) (s : Bool) (v : Int) (h : fits n s v = false) :
+    encodeInt e n s v = none := by
+  unfold encodeInt
+  rw [h]
+  rfl
+
+theorem fits_range (n : Nat) (v : Int) :
+    (fits n false v = true ↔ 0 ≤ v ∧ v < 2 ^ (8 * n)) ∧
+    (fits (n + 1) true v = true ↔ -(2 ^ (8 * n + 7) : Int) ≤ v ∧ v < 2 ^ (8 * n + 7)) := by
+  unfold fits
+  simp only [Bool.false_eq_true, if_false, if_true, decide_eq_true_eq, Int.natCast_pow, show ((2 : Nat) : Int) = 2 from rfl]
+  have : (2 : Int) ^ (8 * (n + 1)) = 2 * 2 ^ (8 * n + 7) := by
+    rw [show 8 * (n + 1) = (8 * n + 7) + 1 by omega, Int.pow_succ]; omega
+  rw [this]
+  generalize (2 : Int) ^ (8 * n + 7) = P
+  refine ⟨trivial, ?_⟩
+  constructor <;> intro h <;> omega
+
+/-! ### Bit operations -/
+
+theorem and80 : ∀ n, n < 256 → (n &&& 0x80 = 0 ↔ n < 128) := by decide +kernel
+theorem and40 : ∀ n, n < 128 → (n &&& 0x40 = 0 ↔ n < 64) := by decide +kernel
+theorem or80 : ∀ n, n < 128 → (0x80 ||| n = 128 + n) := by decide +kernel
+theorem and7F (n : Nat) : n &&& 0x7F = n % 128 := Nat.and_two_pow_sub_one_eq_mod n 7
+
+theorem ldiff_mask (k m : Nat) :
+    Nat.bitwise (fun a b => a && !b) (2^k - 1) m = 2^k - 1 - m % 2^k := by
+  apply Nat.eq_of_testBit_eq
+  intro i
+  rw [Nat.testBit_bitwise (by rfl)]
+  have h1 : 2^k - 1 - m % 2^k = 2^k - (m % 2^k + 1) := by omega
+  rw [h1, Nat.testBit_two_pow_sub_succ (Nat.mod_lt _ (Nat.two_pow_pos k)), Nat.testBit_two_pow_sub_one,
+    Nat.testBit_mod_two_pow]
+  by_cases h : i < k <;> simp [h]
+
+theorem land_7F (x : Int) : land x 0x7F = x % 128 := by
+  cases x with
+  | ofNat m =>
+    show ((m &&& 0x7F : Nat) : Int) = _
+    rw [and7F]; rfl
+  | negSucc m =>
+    show ((Nat.bitwise (fun a b => a && !b) (2 ^ 7 - 1) m : Nat) : Int) = _
+    rw [ldiff_mask]
+    omega
+
+theorem shr_7 (x : Int) : shr x 7 = x / 128 := rfl
+
+theorem land_40_nat (k : Nat) : land (k : Int) 0x40 = ((k &&& 0x40 : Nat) : Int) := rfl
+
+theorem lor_80_nat (k : Nat) : lor 0x80 (k : Int) = ((0x80 ||| k : Nat) : Int) := rfl
+
+theorem lor_signext (u sh : Nat) (h : u < 2 ^ sh) :
+    lor (u : Int) (shl (lnot 0) sh) = (u : Int) - ((2 ^ sh : Nat) : Int) := by
+  have hpos : 0 < 2 ^ sh := Nat.two_pow_pos sh
+  have h1 : shl (lnot 0) sh = Int.negSucc (2 ^ sh - 1) := by
+    unfold shl lnot
+    rw [Int.negSucc_eq]
+    omega
+  rw [h1]
+  show Int.negSucc (Nat.bitwise (fun a b => a && !b) (2 ^ sh - 1) u) = _
+  rw [ldiff_mask, Nat.mod_eq_of_lt h, Int.negSucc_eq]
+  omega
+
+/-! ### LEB128 -/
+
+/-- the writer's stop condition in arithmetic form -/
+def wstop (s : Bool) (d : Int) : Prop :=
+  (s = true ∧ d / 128 = 0 ∧ d % 128 < 64) ∨ (d / 128 = -1 ∧ 64 ≤ d % 128) ∨ (s = false ∧ d / 128 = 0)
+
+instance (s : Bool) (d : Int) : Decidable (wstop s d) := by unfold wstop; infer_instance
+
+/-- one unfolding of the writer in arithmetic form -/
+theorem lebWriteLoop_eq (s : Bool) (d : Int) :
+    lebWriteLoop s d =
+      if wstop s d then [UInt8.ofNat (d % 128).toNat]
+      else UInt8.ofNat (128 + (d % 128).toNat) :: lebWriteLoop s (d / 128) := by
+  rw [lebWriteLoop]
+  simp only [land_7F, shr_7]
+  have hk : d % 128 = ((d % 128).toNat : Int) := by omega
+  have hlt : (d % 128).toNat < 128 := by omega
+  have h40 : land (d % 128) 0x40 = 0 ↔ d % 128 < 64 := by
+    rw [hk, land_40_nat]
+    have := and40 _ hlt
+    omega
+  have h80 : (lor 0x80 (d % 128)).toNat = 128 + (d % 128).toNat := by
+    rw [hk, lor_80_nat, or80 _ hlt]
+    omega
+  have hcond : ((s = true ∧ d / 128 = 0 ∧ land (d % 128) 0x40 = 0) ∨ (d / 128 = -1 ∧ land (d % 128) 0x40 ≠ 0) ∨
+      (¬ s = true ∧ d / 128 = 0)) ↔ wstop s d := by
+    unfold wstop
+    rw [h40]
+    cases s <;> simp <;> omega
+  by_cases hs : wstop s d
+  · rw [if_pos hs, if_pos (hcond.2 hs)]
+  · rw [if_neg hs, if_neg (fun h => hs (hcond.1 h))]
+    have h01 : ¬ (d = 0 ∨ d = -1) := by
+      rintro (rfl | rfl)
+      · apply hs; unfold wstop; cases s <;> simp
+      · apply hs; unfold wstop; cases s <;> simp
+    rw [dif_neg h01, h80]
+
+
+theorem wr_induct (s : Bool) (P : Int → Prop) (stop : ∀ d, wstop s d → P d)
+    (step : ∀ d, ¬ wstop s d → P (d / 128) → P d) : ∀ d, P d := by
+  intro d
+  generalize hn : d.natAbs = n
+  induction n using Nat.strongRecOn generalizing d with
+  | _ n ih =>
+    by_cases hs : wstop s d
+    · exact stop d hs
+    · apply step d hs
+      apply ih (d / 128).natAbs _ _ rfl
+      have h01 : ¬ (d = 0 ∨ d = -1) := by
+        rintro (rfl | rfl)
+        · apply hs; unfold wstop; cases s <;> simp
+        · apply hs; unfold wstop; cases s <;> simp
+      omega
+
+/-- the reader in recursive form: (unsigned value of the 7-bit groups, number of bytes consumed, last byte, rest) -/
+def rd : Bytes → Option (Nat × Nat × UInt8 × Bytes)
+  | [] => none
+  | b :: r =>
+    if b.toNat < 128 then some (b.toNat, 1, b, r)
+    else match rd r with
+      | some (u, n, l, r') => some (b.toNat - 128 + 128 * u, n + 1, l, r')
+      | none => none
+
+theorem or_shift (res sh x : Nat) (h : res < 2 ^ sh) : res ||| (x <<< sh) = res + 2 ^ sh * x := by
+  rw [Nat.or_comm, ← Nat.shiftLeft_add_eq_or_of_lt h, Nat.shiftLeft_eq, Nat.mul_comm, Nat.add_comm]
+
+theorem lebReadLoop_eq (bs : Bytes) : ∀ (res sh : Nat), res < 2 ^ sh →
+    lebReadLoop bs res sh = (rd bs).map (fun p => (res + 2 ^ sh * p.1, sh + 7 * p.2.1, p.2.2.1, p.2.2.2)) := by
+  induction bs with
+  | nil => intro res sh _; rfl
+  | cons b r ih =>
+    intro res sh h
+    have hb := b.toNat_lt
+    simp only [lebReadLoop, rd, and7F, or_shift res sh _ h]
+    have h80 := and80 b.toNat hb
+    by_cases hlt : b.toNat < 128
+    · rw [if_pos (h80.2 hlt), if_pos hlt]
+      have : b.toNat % 128 = b.toNat := by omega
+      simp [this]
+    · rw [if_neg (fun h => hlt (h80.1 h)), if_neg hlt]
+      have hres' : res + 2 ^ sh * (b.toNat % 128) < 2 ^ (sh + 7) := by
+        rw [Nat.pow_add]
+        have : 2 ^ sh * (b.toNat % 128) ≤ 2 ^ sh * 127 := Nat.mul_le_mul_left _ (by omega)
+        omega
+      rw [ih _ _ hres']
+      cases rd r with
+      | none => rfl
+      | some p =>
+        obtain ⟨u, n, l, r'⟩ := p
+        simp only [Option.map_some, Option.some.injEq, Prod.mk.injEq, and_true]
+        refine ⟨?_, by omega⟩
+        have : b.toNat % 128 = b.toNat - 128 := by omega
+        rw [this, Nat.pow_add, Nat.mul_add, Nat.add_assoc]
+        congr 2
+        rw [Nat.mul_assoc]
+
+
+/-- value denoted by the reader's final state -/
+def sval (s : Bool) (u n : Nat) (l : UInt8) : Int :=
+  if s = true ∧ l.toNat &&& 0x40 ≠ 0 then (u : Int) - ((2 ^ (7 * n) : Nat) : Int) else (u : Int)
+
+theorem rd_spec (bs : Bytes) : ∀ u n l r, rd bs = some (u, n, l, r) →
+    1 ≤ n ∧ bs.length = n + r.length ∧ u < 2 ^ (7 * n) ∧ (l.toNat &&& 0x40 ≠ 0 ↔ 2 ^ (7 * n - 1) ≤ u) := by
+  induction bs with
+  | nil => intro u n l r h; cases h
+  | cons b t ih =>
+    intro u n l r h
+    simp only [rd] at h
+    by_cases hlt : b.toNat < 128
+    · rw [if_pos hlt] at h
+      simp only [Option.some.injEq, Prod.mk.injEq] at h
+      obtain ⟨rfl, rfl, rfl, rfl⟩ := h
+      have := and40 _ hlt
+      refine ⟨Nat.le_refl _, by simp; omega, by omega, ?_⟩
+      show _ ↔ 64 ≤ _
+      omega
+    · rw [if_neg hlt] at h
+      cases hr : rd t with
+      | none => rw [hr] at h; cases h
+      | some p =>
+        obtain ⟨u', n', l', r'⟩ := p
+        rw [hr] at h
+        simp only [Option.some.injEq, Prod.mk.injEq] at h
+        obtain ⟨rfl, rfl, rfl, rfl⟩ := h
+        obtain ⟨h1, h2, h3, h4⟩ := ih _ _ _ _ hr
+        have hb := b.toNat_lt
+        have e1 : 2 ^ (7 * (n' + 1)) = 128 * 2 ^ (7 * n') := by
+          rw [show 7 * (n' + 1) = 7 + 7 * n' by omega, Nat.pow_add]
+        have e2 : 2 ^ (7 * (n' + 1) - 1) = 128 * 2 ^ (7 * n' - 1) := by
+          rw [show 7 * (n' + 1) - 1 = 7 + (7 * n' - 1) by omega, Nat.pow_add]
+        rw [e1, e2, h4]
+        refine ⟨by omega, by simp; omega, by omega, ?_⟩
+        omega
+
+theorem lebRead_eq (s : Bool) (bs : Bytes) :
+    lebRead s bs = match rd bs with
+      | none => .error .eof
+      | some (u, n, l, r) => .ok (sval s u n l, r) := by
+  unfold lebRead
+  rw [lebReadLoop_eq bs 0 0 (by decide)]
+  cases hr : rd bs with
+  | none => rfl
+  | some p =>
+    obtain ⟨u, n, l, r⟩ := p
+    obtain ⟨_, _, hu, _⟩ := rd_spec bs _ _ _ _ hr
+    simp only [Option.map_some, Nat.zero_add, Nat.pow_zero, Nat.one_mul]
+    unfold sval
+    by_cases hc : s = true ∧ l.toNat &&& 0x40 ≠ 0
+    · rw [if_pos hc, if_pos hc, lor_signext u _ hu]
+    · rw [if_neg hc, if_neg hc]
+
+theorem u8_small (k : Nat) (h : k < 256) : (UInt8.ofNat k).toNat = k := UInt8.toNat_ofNat_of_lt' h
+
+theorem leb_roundtrip (s : Bool) (rest : Bytes) : ∀ d : Int, (s = false → 0 ≤ d) →
+    ∃ u l, rd (lebWriteLoop s d ++ rest) = some (u, (lebWriteLoop s d).length, l, rest) ∧
+      sval s u (lebWriteLoop s d).length l = d := by
+  intro d
+  induction d using wr_induct s with
+  | stop d hs =>
+    intro hd
+    have hlt : (d % 128).toNat < 128 := by omega
+    rw [lebWriteLoop_eq, if_pos hs]
+    refine ⟨(d % 128).toNat, UInt8.ofNat (d % 128).toNat, ?_, ?_⟩
+    · simp only [List.singleton_append, rd, u8_small _ (by omega : (d % 128).toNat < 256), if_pos hlt,
+        List.length_singleton]
+    · unfold sval
+      rw [u8_small _ (by omega : (d % 128).toNat < 256)]
+      have h40 := and40 _ hlt
+      simp only [List.length_singleton]
+      unfold wstop at hs
+      split
+      · rename_i hc
+        have : ((2 ^ (7 * 1) : Nat) : Int) = 128 := by decide
+        rw [this]
+        cases s with
+        | false => exact absurd hc.1 (by decide)
+        | true => simp only [true_and, Bool.true_eq_false, false_and, or_false] at hs; omega
+      · rename_i hc
+        cases s with
+        | false => have := hd rfl; simp only [Bool.false_eq_true, false_and, true_and, false_or] at hs; omega
+        | true =>
+          simp only [true_and, Bool.true_eq_false, false_and, or_false] at hs
+          have hc' : (d % 128).toNat &&& 0x40 = 0 := by
+            by_cases h : (d % 128).toNat &&& 0x40 = 0
+            · exact h
+            · exact absurd ⟨rfl, h⟩ hc
+          omega
+  | step d hs ih =>
+    intro hd
+    obtain ⟨u, l, h1, h2⟩ := ih (by intro h; have := hd h; omega)
+    have hlt : (d % 128).toNat < 128 := by omega
+    rw [lebWriteLoop_eq, if_neg hs]
+    refine ⟨(d % 128).toNat + 128 * u, l, ?_, ?_⟩
+    · simp only [List.cons_append, rd, u8_small _ (by omega : 128 + (d % 128).toNat < 256),
+        if_neg (by omega : ¬ 128 + (d % 128).toNat < 128), h1, List.length_cons]
+      simp only [Option.some.injEq, Prod.mk.injEq, and_true]
+      omega
+    · unfold sval at h2 ⊢
+      simp only [List.length_cons]
+      have e1 : 2 ^ (7 * ((lebWriteLoop s (d / 128)).length + 1)) = 128 * 2 ^ (7 * (lebWriteLoop s (d / 128)).length) := by
+        rw [show ∀ n, 7 * (n + 1) = 7 + 7 * n by intro n; omega, Nat.pow_add]
+      rw [e1]
+      generalize 2 ^ (7 * (lebWriteLoop s (d / 128)).length) = P at *
+      split at h2 <;> rename_i hc
+      · rw [if_pos hc]; omega
+      · rw [if_neg hc]; omega
+
+
+theorem leb_roundtrip_read (s : Bool) (d : Int) (rest : Bytes) (h : s = false → 0 ≤ d) :
+    lebRead s (lebWriteLoop s d ++ rest) = .ok (d, rest) := by
+  obtain ⟨u, l, h1, h2⟩ := leb_roundtrip s rest d h
+  rw [lebRead_eq, h1]
+  simp only [h2]
+
+theorem leb_write_neg (v : Int) (h : v < 0) : lebWrite false v = .error .value := by
+  unfold lebWrite
+  rw [if_pos ⟨h, by decide⟩]
+
+theorem leb_shape (s : Bool) : ∀ d : Int,
+    ∃ init last, lebWriteLoop s d = init ++ [last] ∧ last.toNat < 128 ∧ ∀ b ∈ init, b.toNat ≥ 128 := by
+  intro d
+  induction d using wr_induct s with
+  | stop d hs =>
+    rw [lebWriteLoop_eq, if_pos hs]
+    refine ⟨[], _, rfl, ?_, by simp⟩
+    rw [u8_small _ (by omega)]; omega
+  | step d hs ih =>
+    obtain ⟨init, last, h1, h2, h3⟩ := ih
+    rw [lebWriteLoop_eq, if_neg hs, h1]
+    refine ⟨_ :: init, last, rfl, h2, ?_⟩
+    intro b hb
+    rcases List.mem_cons.1 hb with rfl | hb
+    · rw [u8_small _ (by omega)]; omega
+    · exact h3 b hb
+
+theorem readLoop_truncated (bs : Bytes) (h : ∀ b ∈ bs, b.toNat ≥ 128) : ∀ res sh, lebReadLoop bs res sh = none := by
+  induction bs with
+  | nil => intro _ _; rfl
+  | cons b r ih =>
+    intro res sh
+    have hb : b.toNat ≥ 128 := h b (by simp)
+    have h80 := and80 b.toNat b.toNat_lt
+    simp only [lebReadLoop]
+    rw [if_neg (by omega)]
+    exact ih (fun x hx => h x (by simp [hx])) _ _
+
+theorem leb_truncated (s : Bool) (bs : Bytes) (h : ∀ b ∈ bs, b.toNat ≥ 128) : lebRead s bs = .error .eof := by
+  unfold lebRead
+  rw [readLoop_truncated bs h]
+
+/-- length bound for the signed writer -/
+theorem wlen_signed (n : Nat) : ∀ d : Int, -((2 ^ (7 * n + 6) : Nat) : Int) ≤ d → d < ((2 ^ (7 * n + 6) : Nat) : Int) →
+    (lebWriteLoop true d).length ≤ n + 1 := by
+  induction n with
+  | zero =>
+    intro d h1 h2
+    have : ((2 ^ (7 * 0 + 6) : Nat) : Int) = 64 := by decide
+    rw [this] at h1 h2
+    have hs : wstop true d := by unfold wstop; simp only [true_and, Bool.true_eq_false, false_and, or_false]; omega
+    rw [lebWriteLoop_eq, if_pos hs]
+    simp
+  | succ n ih =>
+    intro d h1 h2
+    rw [lebWriteLoop_eq]
+    split
+    · simp
+    · have e : 2 ^ (7 * (n + 1) + 6) = 128 * 2 ^ (7 * n + 6) := by
+        rw [show 7 * (n + 1) + 6 = 7 + (7 * n + 6) by omega, Nat.pow_add]
+      rw [e] at h1 h2
+      have := ih (d / 128) (by omega) (by omega)
+      simp only [List.length_cons]
+      omega
+
+/-- length bound for the unsigned writer -/
+theorem wlen_unsigned (n : Nat) : ∀ d : Int, 0 ≤ d → d < ((2 ^ (7 * n + 7) : Nat) : Int) →
+    (lebWriteLoop false d).length ≤ n + 1 := by
+  induction n with
+  | zero =>
+    intro d h1 h2
+    have : ((2 ^ (7 * 0 + 7) : Nat) : Int) = 128 := by decide
+    rw [this] at h2
+    have hs : wstop false d := by unfold wstop; simp only [Bool.false_eq_true, false_and, true_and, false_or]; omega
+    rw [lebWriteLoop_eq, if_pos hs]
+    simp
+  | succ n ih =>
+    intro d h1 h2
+    rw [lebWriteLoop_eq]
+    split
+    · simp
+    · have e : 2 ^ (7 * (n + 1) + 7) = 128 * 2 ^ (7 * n + 7) := by
+        rw [show 7 * (n + 1) + 7 = 7 + (7 * n + 7) by omega, Nat.pow_add]
+      rw [e] at h2
+      have := ih (d / 128) (by omega) (by omega)
+      simp only [List.length_cons]
+      omega
+
+theorem leb_minimal (s : Bool) (v : Int) (bs : Bytes)
+    (h : lebRead s bs = .ok (v, [])) : (lebWriteLoop s v).length ≤ bs.length := by
+  rw [lebRead_eq] at h
+  cases hr : rd bs with
+  | none => rw [hr] at h; cases h
+  | some p =>
+    obtain ⟨u, n, l, r⟩ := p
+    rw [hr] at h
+    simp only [Except.ok.injEq, Prod.mk.injEq] at h
+    obtain ⟨hv, rfl⟩ := h
+    obtain ⟨h1, h2, h3, h4⟩ := rd_spec bs _ _ _ _ hr
+    obtain ⟨m, rfl⟩ : ∃ m, n = m + 1 := ⟨n - 1, by omega⟩
+    simp only [List.length_nil, Nat.add_zero] at h2
+    rw [h2]
+    have e7 : 7 * (m + 1) = 7 * m + 7 := by omega
+    have e6 : 7 * (m + 1) - 1 = 7 * m + 6 := by omega
+    have ep : 2 ^ (7 * m + 7) = 2 * 2 ^ (7 * m + 6) := by
+      rw [show 7 * m + 7 = (7 * m + 6) + 1 by omega, Nat.pow_succ]; omega
+    unfold sval at hv
+    rw [e7] at h3 hv
+    rw [e6] at h4
+    cases s with
+    | false =>
+      simp only [Bool.false_eq_true, false_and, if_false] at hv
+      exact wlen_unsigned m v (by omega) (by omega)
+    | true =>
+      apply wlen_signed m v
+      · split at hv
+        · rename_i hc
+          have := h4.1 hc.2
+          omega
+        · omega
+      · split at hv
+        · omega
+        · rename_i hc
+          have : ¬ (2 ^ (7 * m + 6) ≤ u) := fun hh => hc ⟨rfl, h4.2 hh⟩
+          omega
+
 end Cstruct.C05.Lemmas
